@@ -249,6 +249,9 @@ def mk_cmp(op, l, r):
     if op in ("is", "isnot") and l[0] == "const" and r[0] == "const" and (l[1] is None or r[1] is None):
         same = l[1] is None and r[1] is None
         return ("const", same if op == "is" else not same)
+    if op in ("eq", "ne") and l[0] == "const" and r[0] == "const" and type(l[1]) is type(r[1]) and isinstance(l[1], (str, int)) \
+            and not isinstance(l[1], bool):
+        return ("const", (l[1] == r[1]) == (op == "eq"))  # "above" == "below": a constant key against a constant table key
     if op in ("in", "notin") and l[0] == "const":
         # membership of a constant in a display of constants (a literal table of accepted values) is decided
         keys = None
@@ -2723,6 +2726,14 @@ class Evaluator:
         if f in (("builtin", "any"), ("builtin", "all")) and f[1] not in self.env and plain and len(args) == 1 and args[0][0] in ("tuple", "list") \
                 and 0 < len(args[0][1]) <= 8 and not any(x[0] == "star" for x in args[0][1]):
             return OR(*args[0][1]) if f[1] == "any" else AND(*args[0][1])
+        # functools.reduce(f, (a, b, c)[, init]) over a display is f(f(a, b), c)
+        if f == ("ext", "functools.reduce") and plain and len(args) in (2, 3) and args[1][0] in ("tuple", "list") and 0 < len(args[1][1]) <= 8 \
+                and not any(x[0] == "star" for x in args[1][1]):
+            items_ = list(args[1][1])
+            acc_ = args[2] if len(args) == 3 else items_.pop(0)
+            for it_ in items_:
+                acc_ = self._fold_records(fold_sub(self._apply_fn(args[0], [acc_, it_])))
+            return acc_
         # S.isdisjoint({a, b}) is not (a in S or b in S)
         if f[0] == "attr" and f[2] == "isdisjoint" and plain and len(args) == 1 and args[0][0] in ("set", "tuple", "list") \
                 and 0 < len(args[0][1]) <= 8 and not any(x[0] == "star" for x in args[0][1]):
@@ -4381,6 +4392,21 @@ def fold_sub(t):
     if t and t[0] == "call" and t[1][0] == "attr" and t[1][2] == "join" and t[1][1][0] == "const" and isinstance(t[1][1][1], str) \
             and len(t[2]) == 1 and not t[3] and _join_as_fstr(t[1][1][1], t[2][0]) is not None:
         return _join_as_fstr(t[1][1][1], t[2][0])  # the display became explicit through a substitution
+    if t and t[0] == "call" and t[1][0] == "ext" and t[1][1].startswith("operator.") and not t[3] and not any(a[0] == "star" for a in t[2]):
+        # operator.lt picked from a table / handed to a helper and applied there: the same normal form as in a direct call
+        nm_ = t[1][1].split(".", 1)[1]
+        if nm_ in Evaluator.OPERATOR_BIN and len(t[2]) == 2:
+            return fold_sub(("bin", Evaluator.OPERATOR_BIN[nm_], t[2][0], t[2][1]))
+        if nm_ in Evaluator.OPERATOR_CMP and len(t[2]) == 2:
+            return fold_sub(mk_cmp(Evaluator.OPERATOR_CMP[nm_], t[2][0], t[2][1]))
+        if nm_ == "contains" and len(t[2]) == 2:
+            return fold_sub(mk_cmp("in", t[2][1], t[2][0]))
+        if nm_ == "getitem" and len(t[2]) == 2:
+            return fold_sub(("sub", t[2][0], t[2][1]))
+        if nm_ == "not_" and len(t[2]) == 1:
+            return NOT(t[2][0])
+        if nm_ == "neg" and len(t[2]) == 1:
+            return ("neg", t[2][0])
     if t and t[0] == "call" and t[1][0] == "ext" and not t[3] and _shapely_method_form(t[1], t[2]) is not None:
         return _shapely_method_form(t[1], t[2])  # (a function picked from a table and applied: the same normal form as in a direct call)
     if t and t[0] in ("and", "or") and len(t) == 2 and any(x in (TRUE, FALSE) for x in t[1]):
